@@ -1324,6 +1324,86 @@ func c19CentralCase(r *fw.Rec, idx int) {
 	}
 }
 
+// c19VanishingOriginCase: grid->image maps whose vanishing line passes exactly through the grid
+// origin (0,0) - or along the grid's left / top border -, built from small integers so that every
+// defining coordinate is a dyadic rational: the constant term of the map's denominator is exactly
+// zero, which says nothing about the cell centres (all of them have a positive denominator and an
+// image inside the picture).
+func c19VanishingOriginCase(r *fw.Rec, idx int) {
+	rng := r.Rng
+	for rep := 0; rep < 6; rep++ {
+		dim := 6 + rng.Intn(9)
+		// denominator w = p*x + q*y with (p,q) in {(1,0),(0,1),(1,1)}; source corners where w is a power of two
+		kind := (idx + rep) % 3
+		var src [4][2]float64
+		var p, q float64
+		switch kind {
+		case 0:
+			p, q = 1, 0
+			src = [4][2]float64{{2, 2}, {8, 2}, {8, 8}, {2, 8}}
+			if rng.Bool() {
+				src = [4][2]float64{{1, 1}, {4, 1}, {4, 5}, {1, 5}}
+			}
+		case 1:
+			p, q = 0, 1
+			src = [4][2]float64{{2, 2}, {8, 2}, {8, 8}, {2, 8}}
+			if rng.Bool() {
+				src = [4][2]float64{{1, 1}, {5, 1}, {5, 4}, {1, 4}}
+			}
+		default:
+			p, q = 1, 1
+			src = [4][2]float64{{1, 1}, {3, 1}, {3, 5}, {1, 3}}
+		}
+		a, b, c0 := float64(4+rng.Intn(16)), float64(rng.Intn(7)), float64(rng.Intn(7))
+		d, e, f := float64(4+rng.Intn(16)), float64(rng.Intn(7)), float64(rng.Intn(7))
+		// X = (a*w + b*y' + c0)/w, Y = (d*w + e*x' + f)/w with x', y' the coordinate the denominator does not use (kind 2: x and y)
+		num := func(x, y float64) (float64, float64, float64) {
+			w := p*x + q*y
+			switch kind {
+			case 0:
+				return a*w + b*y + c0, d*w + e*y + f, w
+			case 1:
+				return a*w + b*x + c0, d*w + e*x + f, w
+			}
+			return a*w + b*x + c0, d*w + e*y + f, w
+		}
+		var dst [4][2]float64
+		for i, pt := range src {
+			nx, ny, w := num(pt[0], pt[1])
+			dst[i] = [2]float64{nx / w, ny / w}
+		}
+		if !c19WellShaped(dst, 0.01) {
+			continue
+		}
+		hm, ok := c19Solve(src, dst)
+		if !ok {
+			continue
+		}
+		// picture large enough for every cell centre
+		maxX, maxY := 0.0, 0.0
+		for _, x := range []float64{0.5, float64(dim) - 0.5} {
+			for _, y := range []float64{0.5, float64(dim) - 0.5} {
+				nx, ny, w := num(x, y)
+				maxX, maxY = math.Max(maxX, nx/w), math.Max(maxY, ny/w)
+			}
+		}
+		W, H := int(maxX)+3+rng.Intn(5), int(maxY)+3+rng.Intn(5)
+		if W > 400 || H > 400 {
+			continue
+		}
+		img := c19NewImg(rng, W, H, []string{"black", "noise"}[rng.Intn(2)])
+		st := &c19Setup{dimX: dim, dimY: dim, src: src, dst: dst, family: "perspective", srcKind: "vanishing-line-through-grid-origin", places: [4]string{"inside", "inside", "inside", "inside"}, h: hm}
+		if exp := c19Expected(hm, dim, dim, img); exp.twisted {
+			continue
+		}
+		if !c19SampleAndCheck(r, st, img, "vanishing-origin") {
+			return
+		}
+		r.Tally("setups_vanishing_line_through_grid_origin")
+		r.NontrivialH(c19HashFloats(c19Flat(src), c19Flat(dst)))
+	}
+}
+
 // ---------------------------------------------------------------------------
 // nudge bands: targeted SampleGrid set-ups and direct calls
 
@@ -1728,6 +1808,11 @@ func c19(c *fw.Ctx) {
 		i := i
 		c.Run(fmt.Sprintf("sample/overhang/%d", i), func(r *fw.Rec) { c19SamplingCase(r, 177+i, true) })
 	}
+	for i := 0; i < c.Pick(60, 600); i++ {
+		i := i
+		c.Run(fmt.Sprintf("sample/vanishing-origin/%d", i), func(r *fw.Rec) { c19VanishingOriginCase(r, i) })
+	}
+	c.Floor("setups_vanishing_line_through_grid_origin", 100)
 	nC := c.Pick(200, 3000)
 	for i := 0; i < nC; i++ {
 		i := i
